@@ -48,7 +48,7 @@ func TestVerifBoundedSaveLoad(t *testing.T) {
 		{"i0", "0", ""}, {"i1", "42", ""}, {"ineg", "-17", ""}, {"imax", "9223372036854775807", ""}, {"imin", "-9223372036854775807 - 1", "min-int"},
 		{"f1", "1.5", ""}, {"fneg", "-0.25", ""}, {"fsmall", "1e-7", ""}, {"fbig", "1e300", "float-without-fraction"}, {"fint", "3.0", "float-without-fraction"}, {"fdiv", "10.0/4", ""},
 		{"fhuge", "1e19", "float-without-fraction"},
-		{"b1", "true", ""}, {"b0", "false", ""}, 
+		{"b1", "true", ""}, {"b0", "false", ""},
 		{"s0", `""`, ""}, {"s1", `"abc"`, ""}, {"snl", `"line1\nline2"`, ""}, {"sq", `"say \"hi\" \\ back"`, ""}, {"stab", `"a\tb"`, ""}, {"suni", `"héllo ☃ 日本"`, ""},
 		{"sctl", `"bell\x07end"`, "control-character-escape"},
 		{"sbyte", `"é"[0:1]`, ""}, {"sbytes", `"\xc3\x28\xff"`, ""}, {"slatin", `"caf\xe9"`, ""},
@@ -56,7 +56,10 @@ func TestVerifBoundedSaveLoad(t *testing.T) {
 		{"m0", "{}", ""}, {"m2", "{\"a\":1, 2:\"b\"}", ""}, {"m6", "{1:1,2:2,3:3,4:4,5:5,6:6}", ""}, {"mnest", "{\"x\":{\"y\":{\"z\":[1,{\"w\":false}]}}}", ""},
 		{"mkeys", "{1.5:\"f\", true:\"b\", \"s\":\"s\"}", ""},
 	}
-	funcs := []struct{ def, name string; args []string }{
+	funcs := []struct {
+		def, name string
+		args      []string
+	}{
 		{"func add3(a, b, c) { a + b * c }", "add3", []string{"1,2,3", "-1,0,5"}},
 		{"func fact(n) { if n <= 1 { 1 } else { n * fact(n - 1) } }", "fact", []string{"5", "10"}},
 		{"lam = (x, y) => x * y + 1", "lam", []string{"2,3", "0,0"}},
